@@ -6,6 +6,7 @@ import Swim.Drv.Codec
 import Swim.Drv.Ingest
 import Swim.Drv.C06
 import Swim.Drv.C09
+import Swim.Drv.C19
 /-! Line-protocol driver: `<PROP> <kind> k=v ...` in, `<PROP> <id> <agree|DISAGREE> <ok|BAD:..> ...` out. -/
 open Swim.Parse
 
@@ -19,6 +20,7 @@ def dispatch (line : String) : String :=
       | "C17" => Swim.Drv.C17.handle kind fs
       | "C09" => Swim.Drv.C09.handle kind fs
       | "C10" => Swim.Drv.C10.handle kind fs
+      | "C19" => Swim.Drv.C19.handle kind fs
       | "C11" => Swim.Drv.Codec.handleC11 kind fs
       | "C12" => Swim.Drv.Codec.handleC12 kind fs
       | "C13" => Swim.Drv.Ingest.handleC13 kind fs
